@@ -12,3 +12,6 @@ func VerifCompareTypes(newType, oldType Type) TypeChange {
 func VerifTypeChangeIsError(tc TypeChange) bool { return typeChangeIsError(tc) }
 
 func VerifTypeChangeToWarning(tc TypeChange) string { return typeChangeToWarning(tc) }
+
+// VerifNormalizeComment: the head-comment -> documentation-comment function of the YAML layer (C13).
+func VerifNormalizeComment(comments string) string { return normalizeComment(comments) }
